@@ -205,7 +205,7 @@ func H_C09_arraykey() {
 // C09.traverse — next visits every present key exactly once, also when visited fields are cleared
 // or overwritten during the traversal.
 //
-//verif:harness prop=C09 tier=quick qparams=nkeys:3 tparams=nkeys:4 tmaxpaths=900000 bounds="tables built from nkeys (3 quick / 4 thorough) stores with keys from {array integers 1..4 (symbolic), 1-byte symbolic strings, booleans, hash-part numbers 0, -1, 2.5}, optionally followed by deleting one of them; during the traversal every visited field is cleared / overwritten / left alone, or only the j-th visited field is cleared (by choice per table)"
+//verif:harness prop=C09 tier=quick qparams=nkeys:3 tparams=nkeys:4 tmaxpaths=900000 bounds="tables built from nkeys (3 quick / 4 thorough) stores with keys from {array integers 1..4 (symbolic), 1-byte symbolic strings, booleans, hash-part numbers 0, -1, 2.5}, optionally followed by deleting one of them and optionally storing it again; during the traversal every visited field is cleared / overwritten / left alone, or only the j-th visited field is cleared (by choice per table)"
 func H_C09_traverse() {
 	L := newL(Options{}, BaseLibName)
 	tb := L.NewTable()
@@ -245,7 +245,12 @@ func H_C09_traverse() {
 	// bookkeeping stays behind)
 	if del := VChoice(len(keys) + 1); del < len(keys) {
 		L.RawSet(tb, keys[del], LNil)
-		keys = append(append([]LValue{}, keys[:del]...), keys[del+1:]...)
+		if VChoice(2) == 1 {
+			// ... and stored again: the key is present once, wherever the bookkeeping keeps its old slot
+			L.RawSet(tb, keys[del], LNumber(55))
+		} else {
+			keys = append(append([]LValue{}, keys[:del]...), keys[del+1:]...)
+		}
 	}
 	mode := VChoice(4) // 0 leave, 1 clear every visited field, 2 overwrite every visited field, 3 clear only the j-th visited field
 	only := 0
@@ -316,5 +321,47 @@ func H_C09_luastore() {
 			VAssert(L.Get(1) == LNumber(7) && L.Get(2) == LNumber(7), "luastore: the stored value is read back by t[k] and rawget: "+src)
 		}
 	}
+	VReach("end")
+}
+
+
+// C09.ipairs — ipairs visits 1..n up to the first nil, whatever the other values are (false included).
+//
+//verif:harness prop=C09 tier=quick bounds="lists of <= 4 slots, each nil / false / true / a symbolic number / a string; visited through the real ipairs iterator driven by a generic for"
+func H_C09_ipairs() {
+	L := newL(Options{}, BaseLibName)
+	n := VChoice(5)
+	tb := L.NewTable()
+	want := 0
+	open := true
+	for i := 1; i <= n; i++ {
+		var v LValue
+		switch VChoice(5) {
+		case 0:
+			v = LNil
+		case 1:
+			v = LFalse
+		case 2:
+			v = LTrue
+		case 3:
+			f := VFloat("v")
+			VAssume(f == f) // rawequal(NaN, NaN) is false: NaN elements are left to the map harness
+			v = LNumber(f)
+		default:
+			v = LString("s")
+		}
+		L.RawSet(tb, LNumber(i), v)
+		if v == LNil {
+			open = false
+		}
+		if open {
+			want = i
+		}
+	}
+	L.G.Global.RawSetString("t", tb)
+	err := loadRun(L, "local c, last, same = 0, 0, true; for i, v in ipairs(t) do c = c + 1; last = i; same = same and rawequal(v, t[i]) end; return c, last, same", 3)
+	VAssert(err == nil, "ipairs: runs")
+	VAssert(L.Get(1) == LNumber(want) && L.Get(2) == LNumber(want), "ipairs: visits exactly 1..n up to the first nil (false is a value)")
+	VAssert(L.Get(3) == LTrue, "ipairs: yields the elements themselves")
 	VReach("end")
 }
